@@ -124,9 +124,14 @@ def observe(p, pt="AS_point_0", two=False):
     return {o: np.array(p[pt + "." + o], dtype=float).copy() for o in OBS + (OBS_TAIL if two else [])}
 
 
-def set_pt(p, k):
+THRUSTS = [5.0e3, 0.0, 8.0e3]  # point-mass configuration: the engine is idle (exactly zero thrust) at P1
+
+
+def set_pt(p, k, cfg=None):
     for n, v in POINTS[k].items():
         p.set_val(n, np.array(v, dtype=float) if isinstance(v, list) else v)
+    if cfg is not None and CONFIGS[cfg].get("pm"):
+        p.set_val("engine_thrusts", [THRUSTS[k]])
 
 
 _REFS = {}
@@ -138,7 +143,7 @@ def ref_obs(cfg, fam, k):
         fl, rk = rot_kw(cfg, FLOW)
         p = builders.build_aerostruct(surfaces(cfg, fam), fl, pm=pm_of(cfg), **rk)
         builders.tighten(p)
-        set_pt(p, k)
+        set_pt(p, k, cfg)
         p.run_model()
         _REFS[key] = observe(p, two=bool(CONFIGS[cfg].get("two")))
     return _REFS[key]
@@ -156,7 +161,7 @@ def part_path(s):
     dg = []
     two = bool(CONFIGS[s["cfg"]].get("two"))
     for step, k in enumerate(s["order"]):
-        set_pt(p, k)
+        set_pt(p, k, s["cfg"])
         if s["guess"] == "scaled":
             # a deliberately bad initial guess: ten times the current displacement state (or a non-zero one at the start)
             d = p["AS_point_0.coupled.wing.disp"]
